@@ -499,3 +499,95 @@ Proof.
   split. { simpl. nodup_tac. }
   vm_compute. split; reflexivity.
 Qed.
+
+(* ================================================================== *)
+(* accept_wf is true of registrations as add_view makes them: accept= is handed to make as the
+   accept predicate (args_kw), so the made predicate list contains PAccept [offer] -- provided the
+   other keyword arguments do not themselves carry an accept key and accept is a registered name *)
+Lemma make_vals_incl name n vals acc acc' p :
+  make_vals name n vals acc = Some acc' -> In p (fst acc) -> In p (fst acc').
+Proof.
+  revert acc. induction vals as [|[nt v] vals IH]; intros acc H Hin; simpl in H.
+  - inversion H; subst; assumption.
+  - destruct (factory name v) as [q|]; simpl in H; [|discriminate].
+    apply IH in H; [assumption|]. simpl. apply in_or_app. left; assumption.
+Qed.
+
+Lemma make_loop_incl names n kw acc acc' p :
+  make_loop names n kw acc = Some acc' -> In p (fst acc) -> In p (fst acc').
+Proof.
+  revert n acc. induction names as [|name names IH]; intros n acc H Hin; simpl in H.
+  - inversion H; subst; assumption.
+  - destruct (assoc name kw) as [vals|].
+    + destruct (make_vals name n vals acc) as [acc1|] eqn:E; simpl in H; [|discriminate].
+      eapply IH; [exact H|]. eapply make_vals_incl; eassumption.
+    + eapply IH; eassumption.
+Qed.
+
+Lemma make_loop_accept names n kw acc acc' o :
+  In nm_accept names -> assoc nm_accept kw = Some [(false, VText o)] ->
+  make_loop names n kw acc = Some acc' -> In (PAccept [o]) (fst acc').
+Proof.
+  revert n acc. induction names as [|name names IH]; intros n acc Hin Hk H; [contradiction|].
+  simpl in H. destruct (text_eqb_spec name nm_accept) as [->|Hne].
+  - rewrite Hk in H.
+    assert (E : make_vals nm_accept n [(false, VText o)] acc
+                = Some (fst acc ++ [PAccept [o]], snd acc ++ [weight n])) by reflexivity.
+    rewrite E in H. simpl in H. eapply make_loop_incl; [exact H|]. simpl.
+    apply in_or_app. right. left. reflexivity.
+  - destruct Hin as [->|Hin]; [contradiction|].
+    destruct (assoc name kw) as [vals|].
+    + destruct (make_vals name n vals acc) as [acc1|]; simpl in H; [|discriminate]. eapply IH; eassumption.
+    + eapply IH; eassumption.
+Qed.
+
+Lemma assoc_app_none {B} k (l1 l2 : list (text * B)) : assoc k l1 = None -> assoc k (l1 ++ l2) = assoc k l2.
+Proof.
+  induction l1 as [|[k' v] l1 IH]; simpl; intros H; [reflexivity|].
+  destruct (text_eqb k k'); [discriminate|]. apply IH; assumption.
+Qed.
+
+Definition made_by_plain (names : list text) (v : reg) : Prop :=
+  exists cls a, assoc nm_accept (a_kw a) = None /\ reg_of_args names cls a = Some v.
+
+Lemma made_by_plain_made_by names v : made_by_plain names v -> made_by names v.
+Proof. intros (cls & a & _ & H). exists cls, a. exact H. Qed.
+
+Theorem made_by_accept_wf names v : In nm_accept names -> made_by_plain names v -> accept_wf v.
+Proof.
+  intros Hin (cls & a & Hk & H) o Ho. unfold reg_of_args in H.
+  destruct (make names (args_kw a)) as [m|] eqn:E; simpl in H; [|discriminate].
+  inversion H; subst v; clear H. simpl in Ho |- *.
+  unfold make in E. destruct (forallb _ (args_kw a)); [|discriminate].
+  destruct (make_loop names 0 (args_kw a) ([], [])) as [[preds ws]|] eqn:L; simpl in E; [|discriminate].
+  inversion E; subst m; simpl.
+  apply (make_loop_accept names 0%Z (args_kw a) ([], []) (preds, ws) (o_full o) Hin); [|exact L].
+  unfold args_kw. rewrite Ho. rewrite (assoc_app_none _ _ _ Hk). simpl.
+  try rewrite text_eqb_refl; reflexivity.
+Qed.
+
+(* the accept-aware lookup theorem for registrations as add_view makes them: the premise accept_wf is discharged *)
+Theorem lookup_winner_media_made ao names regs cls rq :
+  In nm_accept names -> Forall (made_by_plain names) regs ->
+  NoDup (map key regs) -> NoDup (q_req_sro rq) -> NoDup (q_ctx_sro rq) ->
+  match call_view (register_all ao regs) cls rq with
+  | Ran t => exists x, In x regs /\ r_tag x = t /\ candidate cls rq x = true
+                       /\ forall w, In w regs -> candidate cls rq w = true -> strictly_before rq w x = false
+  | _ => forall w, In w regs -> candidate cls rq w = false
+  end.
+Proof.
+  intros Hin Hm Hnd Hr Hc. apply lookup_winner_media; try assumption.
+  eapply Forall_impl; [|exact Hm]. intros v. apply made_by_accept_wf; assumption.
+Qed.
+
+Example made_by_accept_wf_nonvacuous :
+  In nm_accept pred_names /\
+  exists v, made_by_plain pred_names v /\ r_accept v <> None.
+Proof.
+  split; [vm_compute; tauto|].
+  set (o := mkOffer [116; 47; 104]%N [116; 47; 104]%N false).
+  set (a := mkArgs 1%N 0%N [] [(nm_xhr, [(false, VBool true)])] (Some o) false 7%N).
+  destruct (reg_of_args pred_names view_classifier a) as [v|] eqn:E; [|vm_compute in E; discriminate].
+  exists v. split; [exists view_classifier, a; split; [reflexivity|exact E]|].
+  vm_compute in E. inversion E; subst v. discriminate.
+Qed.
